@@ -145,7 +145,7 @@ fn structural_offsets(w: &WireSpec) -> Vec<usize> {
 
 fn large_wires(tier: Tier) -> Vec<WireSpec> {
     let sizes: Vec<usize> = match tier {
-        Tier::Quick => vec![65537, 131073],
+        Tier::Quick => vec![65536, 65537, 131072, 131073],
         Tier::Thorough => vec![65535, 65536, 65537, 131071, 131072, 131073, 200000],
     };
     let mut v = Vec::new();
@@ -632,11 +632,13 @@ pub fn c02(ctx: &Ctx) -> Report {
         }
     }
     let (st, n) = run_cases(ctx, cases);
+    let n_json = json_terminals(ctx);
     let mut rep = Report::new("fault_enumeration");
     fill_report(ctx, &mut rep, &st, n);
     rep.set("cases_connection_drop", n_cut);
     rep.set("cases_io_error", n_fault);
     rep.set("cases_framing_corruption", n_corrupt);
+    rep.set("cases_json_helpers_on_cut_bodies", n_json);
     rep.set("exhaustive", st.capped_cases == 0);
     rep.set(
         "rule",
@@ -748,4 +750,56 @@ pub fn replay_e1(v: &serde_json::Value) -> i32 {
         println!("replay: reproduced {a:?}");
         1
     }
+}
+
+/// The JSON helpers are convenience readers too: on a body whose framing is incomplete they must
+/// fail, also when the JSON value itself happens to be complete before the cut.
+fn json_terminals(ctx: &Ctx) -> u64 {
+    let value = br#"{"a":[1,2,{"b":null}],"s":"x"}"#;
+    let mut n = 0;
+    for trailing in [&b""[..], &b"\n  \n"[..]] {
+        let mut payload = value.to_vec();
+        payload.extend_from_slice(trailing);
+        for framing in [Framing::Length, Framing::Chunked] {
+            let chunks = if framing == Framing::Chunked { vec![5, payload.len() - 5] } else { vec![] };
+            let (wire, body_start) = response(framing, &payload, &chunks, Deco::Plain, b"");
+            for cut in body_start..=wire.len() {
+                for utf8 in [false, true] {
+                    for uniform in [None, Some(1usize)] {
+                        n += 1;
+                        let mut script = Script::plain(wire[..cut].to_vec());
+                        script.policy.uniform = uniform;
+                        let _w = World::single(script, false);
+                        let res = guarded(|| {
+                            attohttpc::get("http://h.test/j").send().and_then(|r| if utf8 { r.json_utf8::<serde_json::Value>() } else { r.json::<serde_json::Value>() })
+                        });
+                        let complete = cut == wire.len();
+                        let fr = format!("{framing:?}").to_lowercase();
+                        let replay = json!({"engine": "e1-json", "framing": fr, "cut": cut, "utf8": utf8, "trailing": trailing.len()});
+                        match res {
+                            Err(p) => ctx.violation(format!("C02:{fr}:panic:json"), format!("json() panicked: {p}"), replay, n),
+                            Ok(Ok(v)) => {
+                                if !complete {
+                                    ctx.violation(
+                                        format!("C02:{fr}:end:clean-on-incomplete:json"),
+                                        format!("{}() = Ok({v}) although the connection was cut after {} of {} body bytes (the framing is incomplete)", if utf8 { "json_utf8" } else { "json" }, cut - body_start, wire.len() - body_start),
+                                        replay,
+                                        n,
+                                    );
+                                } else if v != serde_json::from_slice::<serde_json::Value>(value).unwrap() {
+                                    ctx.violation(format!("C02:{fr}:data:json"), format!("json() parsed {v}"), replay, n);
+                                }
+                            }
+                            Ok(Err(e)) => {
+                                if complete {
+                                    ctx.violation(format!("C02:{fr}:err:on-wellformed:json"), format!("json() = Err({e}) on a complete body"), replay, n);
+                                }
+                            }
+                        }
+                    }
+                }
+            }
+        }
+    }
+    n
 }
